@@ -1,10 +1,16 @@
 //! tfh — correspondence harness for the trustfall Coq development.
 //! usage: tfh <subcommand> --seed S --n N --out DIR
+mod c01;
+mod c07;
 mod c08;
 mod coq;
+mod engine;
+mod irprint;
 mod out;
+mod qgen;
 mod rng;
 mod show;
+mod world;
 
 use std::path::PathBuf;
 
@@ -40,6 +46,17 @@ fn main() {
     // default hook quiet so logs stay readable
     std::panic::set_hook(Box::new(|_| {}));
     match argv[1].as_str() {
+        "exec" => {
+            // engine tie only (Exec model vs interpret_ir)
+            let mut o = out::Out::new(&args.out, "From TF Require Import Run.", 60);
+            c01::run(args.seed, args.n, &mut o, false, 3);
+            o.finish();
+        }
+        "c07" => {
+            let mut o = out::Out::new(&args.out, "From TF Require Import Values Show Ops.", 1500);
+            c07::run(args.seed, args.n, args.rest.iter().any(|x| x == "--oracle-only"), &mut o);
+            o.finish();
+        }
         "c08" => {
             let mut o = out::Out::new(&args.out, "From TF Require Import Values Show.", 1500);
             c08::run(args.seed, args.n, &mut o);
